@@ -21,6 +21,8 @@ EQUIV = {"PV.Equiv.TranslatedOrbitNumReal": ["orbit_float_eq", "orbit_int_eq"],
          "PV.Equiv.TranslatedOrbitNum": ["get_orbit_number_float_eq", "get_orbit_number_int_eq"],
          "PV.Equiv.TranslatedNodeSearch": ["step_phase", "bisect_phase", "get_last_an_time_eq"]}
 EQUIV.update({"PV.Equiv.TranslatedCrossing": ["nprime_int_val", "nprime_float_val", "crossing_ascending_eq", "crossing_descending_eq"]})      # T-D, fifth wave
+EQUIV["PV.Equiv.TranslatedCrossing"] = EQUIV.get("PV.Equiv.TranslatedCrossing", []) + ["gon_frame", "gon_pure", "crossing_ascending_kernels", "crossing_descending_kernels", "crossRoot_crossingTime"]      # T-D, sixth wave
+EQUIV.update({"PV.Equiv.TranslatedCrossingReal": ["toInt_pyInt", "crossRoot_crossingTime_real"]})
 RULE = ("TLEs: the repo's test TLEs and tlegen's real near-earth sets (own derivative fields) plus generated near-earth/LEO sets with "
         "inclination 3-177 deg (families: any, draggy, low |sin i| incl. exactly 3 and 177 deg, eccentric, epoch within 1.5 km of the ascending "
         "(or, 1 in 5, descending) node on either side, drag-free) whose ndot/2 and nddot/6 fields are re-encoded from the SGP4 secular "
